@@ -467,40 +467,6 @@ struct KeySetUnit : Unit
    }
 };
 
-// ================================================================================================ sparse vector helpers
-typedef std::map<int, Q> SpModel;
-
-template <class R>
-inline bool spEq(const SVectorBase<R>& v, const SpModel& m, std::string* why)
-{
-   SpModel got;
-   if(v.size() < 0 || v.size() > v.max())
-   {
-      *why = "size()=" + I(v.size()) + " max()=" + I(v.max());
-      return false;
-   }
-   for(int j = 0; j < v.size(); j++)
-   {
-      Q val = RT<R>::get(v.value(j));
-      if(val == 0) continue;
-      if(got.count(v.index(j)))
-      {
-         *why = "index " + I(v.index(j)) + " stored twice";
-         return false;
-      }
-      got[v.index(j)] = val;
-   }
-   if(got != m)
-   {
-      std::string a, b;
-      for(auto& kv : got) a += I(kv.first) + ":" + qs(kv.second) + " ";
-      for(auto& kv : m) b += I(kv.first) + ":" + qs(kv.second) + " ";
-      *why = "vector is {" + a + "} expected {" + b + "}";
-      return false;
-   }
-   return true;
-}
-
 // SVSetBase::isConsistent() itself is not usable as a monitor: it rejects every set that holds an empty vector behind the
 // last nonzero (mem() > &last()) -- a state reached by plain add() calls.  Its components are reliable and are checked one by
 // one; the arena conditions are replaced by the containment / disjointness test on the capacity ranges below.
@@ -593,35 +559,6 @@ inline bool xtendHazard(SVSetBase<R>& s, SVectorBase<R>& v, int need)
    return s.memSize() + (need - v.max()) > s.memMax();
 }
 
-template <class R>
-struct ValGen
-{
-   // double: dyadic with small numerator (all arithmetic on them is exact); Rational: arbitrary small fractions
-   static Q val(Rng& g)
-   {
-      for(;;)
-      {
-         int n = g.range(-24, 24);
-         if(n == 0) continue;
-         if(RT<R>::exact)
-         {
-            static const int dens[] = {1, 2, 3, 5, 7, 4};
-            return qfrac(n, dens[g.range(0, 5)]);
-         }
-         return qfrac(n, 1 << g.range(0, 2));
-      }
-   }
-};
-
-template <class R>
-inline void fillDSV(DSVectorBase<R>& d, const SpModel& m, Rng* shuffle)
-{
-   std::vector<int> idx;
-   for(auto& kv : m) idx.push_back(kv.first);
-   if(shuffle) shuffle->shuffle(idx);
-   for(int i : idx) d.add(i, RT<R>::make(m.at(i)));
-}
-
 // ================================================================================================ SVSetBase<R>
 template <class R, class R2>
 struct SVSetUnit : Unit
@@ -633,7 +570,7 @@ struct SVSetUnit : Unit
        O_xtendMid, O_add2one, O_add2many, O_remKey, O_remNum0, O_remNumLast, O_remNumMid, O_remPtr, O_remPermEven, O_remPermSub,
        O_remKeysPerm, O_remNumsPerm, O_remKeys, O_remNums, O_clear, O_clearMin, O_memRemaxGrow, O_memRemaxFit, O_memPack, O_grow,
        O_shrink, O_copy, O_assign, O_assignCross, O_copyCross, O_vecRemoveNz, O_vecClear, O_vecScale, O_vecSort;
-   static const int IDXRANGE = 40;
+   enum { IDXRANGE = 40 };
 
    SVSetUnit(const char* nm)
    {
@@ -1415,7 +1352,7 @@ struct LPSetUnit : Unit
    int O_addObj, O_addObjNoKey, O_addParts, O_addPartsNoKey, O_addArrays, O_addSet, O_addSetKeys, O_create, O_xtendNum, O_xtendKey,
        O_add2key, O_add2num, O_remNum0, O_remNumLast, O_remNumMid, O_remKey, O_remPermEven, O_remPermSub, O_remNums, O_remNumsPerm,
        O_clear, O_grow, O_shrink, O_memRemax, O_memPack, O_copy, O_assign, O_setSide;
-   static const int IDXRANGE = 30;
+   enum { IDXRANGE = 30 };
 
    LPSetUnit(const char* nm)
    {
